@@ -40,6 +40,9 @@ NEEDS = {
  "C18-1": ("ID seed resolution lowered from ns to ms", "more than N opens within N ms, then a manager restart"),
  "C18-2": ("failed new request 'cleans up' with channels.Error(chid)", "duplicate new request for an existing channel ID"),
  "C19-1": ("SendVoucher records the voucher before sending", "the network send fails"),
+ "C20-1": ("CleanupChannel keeps dtChannelsLk (defer Unlock) while it runs dtChannel.cleanup", "incoming graphsync request hook (holds the channel lock, applies transport options -> trackDTChannel) concurrent with the cleanup of the same channel"),
+ "C20-2": ("CloseDataTransferChannel stores the Cancel result in the err variable captured by the cancel-sending goroutine", "any close: the goroutine writes err while the caller writes/reads it (visible to go test -race only)"),
+ "C20-3": ("progressCache.setDataLimit does its map write under the read lock", "data limit changed on a cached channel while blocks are being reported on any channel"),
  "C19-2": ("NewVoucher restricted to a hand-built status list that omits ResponderFinalizingTransferFinished", "SendVoucher while the initiator is in ResponderFinalizingTransferFinished"),
 }
 os.makedirs(DST, exist_ok=True)
